@@ -24,3 +24,4 @@ import NbioVerif.Lemmas.SrcBridgeConn
 #print axioms ConnFull.c04_drains_from_open
 #print axioms ConnFull.c04_progress_eintr
 #print axioms ConnFull.c04_flush_empty_noop
+#print axioms ConnFull.c04_flush_empty_drops_idle
